@@ -500,6 +500,40 @@ func (r *Run) Quiesce(timeout time.Duration) bool {
 	return false
 }
 
+// Settle brings the index to the state "writing stopped and background work
+// has settled": eligibility of old epochs is recorded asynchronously (go
+// AddEligibleForRemoval) and the purger only runs when the persister loop is
+// woken, so the loops are nudged (a forced merge makes the merger notify the
+// persister, which purges) until the on-disk state stops changing.
+func (r *Run) Settle(timeout time.Duration) bool {
+	deadline := time.Now().Add(timeout)
+	last := ""
+	same := 0
+	for i := 0; time.Now().Before(deadline); i++ {
+		if !r.Quiesce(time.Until(deadline)) {
+			return false
+		}
+		_ = r.ForceMerge()
+		if !r.Quiesce(time.Until(deadline)) {
+			return false
+		}
+		b, _ := r.Sc.VerifBoltFiles()
+		st := r.Sc.VerifStateNow()
+		sig := fmt.Sprint(b, ZapFiles(StoreDir(r.Dir)), st.Ineligible, st.Eligible)
+		if sig == last {
+			same++
+			if same >= 2 && i >= 3 {
+				return true
+			}
+		} else {
+			same = 0
+		}
+		last = sig
+		time.Sleep(3 * time.Millisecond)
+	}
+	return false
+}
+
 func (r *Run) ForceMerge() error {
 	ctx, cancel := context.WithTimeout(context.Background(), 60*time.Second)
 	defer cancel()
